@@ -34,27 +34,37 @@ PROPS = {
                  thorough=dict(prop=200, prop_shards=16, grid_shards=1, timeout=3600)),
         ])),
     "C07": std("c07", 6000, 8000, fuzz=60, level="fault_enumeration", extra=dict(engine="rapid + per-frame fault-point enumeration + gofuzz")),
-    "C06": std("c06", 3000, 20000, extra=dict(engine="rapid (stream model + hand-written wire encoder) + table")),
-    "C20": std("c20", 5000, 50000, extra=dict(engine="rapid (oracle by construction via reflect) + grid")),
-    "C18": std("c18", 5000, 50000, extra=dict(engine="rapid stateful (model-based histories with injected faults)")),
+    "C06": std("c06", 3000, 60000, fuzz=45, extra=dict(engine="rapid (stream model + hand-written wire encoder) + table + gofuzz")),
+    "C20": std("c20", 5000, 1000000, fuzz=30, extra=dict(
+        engine="rapid (oracle by construction via reflect) + grid + gofuzz",
+        # size.Of walks values through reflect; the thorough tier repeats the run under the second installed toolchain
+        variants=[dict(name="rel"),
+                  dict(name="go126", go="go1.26.8", optional=True, tiers=["thorough"],
+                       thorough=dict(prop=20000, prop_shards=16, grid_shards=1, timeout=3600))])),
+    "C18": std("c18", 5000, 600000, fuzz=45, extra=dict(engine="rapid stateful (model-based histories with injected faults) + gofuzz over the same history generator")),
     "C16": std("c16", 5000, 15000, fuzz=45),
     "C17": std("c17", 5000, 50000, fuzz=45),
-    "C09": std("c09", 20000, 200000, fuzz=45),
+    "C09": std("c09", 20000, 400000, fuzz=45, extra=dict(
+        # bitstr.StrCmpUpto converts a string header with unsafe: what it reads next to the header depends on the
+        # compiler's frame layout, so the thorough tier repeats grid + rapid under the second installed toolchain
+        variants=[dict(name="rel"),
+                  dict(name="go126", go="go1.26.8", optional=True, tiers=["thorough"],
+                       thorough=dict(prop=50000, prop_shards=16, grid_shards=1, timeout=3600))])),
     "C08": std("c08", 10000, 40000, fuzz=30),
-    "C15": std("c15", 2000, 12000, extra=dict(engine="rapid stateful (model-based histories)")),
+    "C15": std("c15", 2000, 12000, fuzz=60, extra=dict(engine="rapid stateful (model-based histories) + gofuzz over the same history generator")),
     "C12": std("c12", 10000, 100000, fuzz=30),
-    "C14": std("c14", 5000, 50000, fuzz=30),
-    "C13": std("c13", 5000, 50000, fuzz=30),
-    "C11": std("c11", 20000, 200000, fuzz=30),
+    "C14": std("c14", 5000, 150000, fuzz=45),
+    "C13": std("c13", 5000, 100000, fuzz=45),
+    "C11": std("c11", 20000, 500000, fuzz=45),
     "C04": std("c04", 6000, 55000, fuzz=45, grid_shards_thorough=16),
-    "C10": std("c10", 20000, 200000),
+    "C10": std("c10", 20000, 2000000, fuzz=30),
     "C05": std("c05", 20000, 20000, grid_shards_thorough=16, extra=dict(
         engine="exhaustive enumeration + rapid", exhaustive_tiers=["thorough"],
         thorough=dict(prop=20000, prop_shards=1, grid_shards=16, timeout=3600))),
     "C01": std("c01", 3000, 20000, fuzz=45, grid_shards_thorough=16),
     "C02": std("c02", 3000, 20000, fuzz=45, grid_shards_thorough=16),
-    "C03": std("c03", 20000, 200000, grid_shards_thorough=16, extra=dict(
-        engine="rapid+grid (release and -tags debug builds)",
-        variants=[dict(name="rel"), dict(name="debug", tags="debug", thorough=dict(prop=50000, prop_shards=16, grid_shards=16, timeout=3600))],
+    "C03": std("c03", 20000, 600000, fuzz=45, grid_shards_thorough=16, extra=dict(
+        engine="rapid+grid+gofuzz (release and -tags debug builds)",
+        variants=[dict(name="rel"), dict(name="debug", tags="debug", thorough=dict(prop=150000, prop_shards=16, grid_shards=16, timeout=3600, fuzz=dict(seconds=30, target="FuzzProp")))],
     )),
 }
